@@ -20,10 +20,22 @@ fn g(r: Result<Result<String, sonic_rs::Error>, String>) -> String {
     }
 }
 
+/// parse from a scratch copy of the input, then overwrite and free the copy before the value is read:
+/// a returned Value owns everything it needs
+fn scratch<T>(input: &[u8], f: impl FnOnce(&[u8]) -> Result<T, sonic_rs::Error>) -> Result<T, sonic_rs::Error> {
+    let mut buf = input.to_vec();
+    let r = f(&buf);
+    for b in buf.iter_mut() {
+        *b = b'7';
+    }
+    drop(buf);
+    r
+}
+
 pub fn dom_drivers(out: &mut Out, doc: &[u8], mutated: bool) {
     let h = hex(doc);
     let nt = doc.len() > 4;
-    out.case("dump", &[&h, "from_slice (in place)"], &g(guarded(|| sonic_rs::from_slice::<Value>(doc).map(|v| dump::dump(&v)))), nt);
+    out.case("dump", &[&h, "from_slice (in place)"], &g(guarded(|| scratch(doc, |b| sonic_rs::from_slice::<Value>(b)).map(|v| dump::dump(&v)))), nt);
     if let Ok(s) = std::str::from_utf8(doc) {
         out.case("dump", &[&h, "from_str (in place)"], &g(guarded(|| sonic_rs::from_str::<Value>(s).map(|v| dump::dump(&v)))), nt);
     }
@@ -31,12 +43,12 @@ pub fn dom_drivers(out: &mut Out, doc: &[u8], mutated: bool) {
     let mut w = b"[ 1,".to_vec();
     w.extend_from_slice(doc);
     w.push(b']');
-    out.case("dump", &[&h, "element of Vec<Value> (copying)"], &g(guarded(|| sonic_rs::from_slice::<Vec<Value>>(&w).map(|v| dump::dump(&v[1])))), nt);
+    out.case("dump", &[&h, "element of Vec<Value> (copying)"], &g(guarded(|| scratch(&w, |b| sonic_rs::from_slice::<Vec<Value>>(b)).map(|v| dump::dump(&v[1])))), nt);
     let mut w = b"{\"a\":".to_vec();
     w.extend_from_slice(doc);
     w.push(b'}');
-    out.case("dump", &[&h, "field of a struct (copying)"], &g(guarded(|| sonic_rs::from_slice::<crate::entry::Embedded>(&w).map(|e| dump::dump(&e.a)))), nt);
-    out.case("dump", &[&h, "value of HashMap<String,Value>"], &g(guarded(|| sonic_rs::from_slice::<HashMap<String, Value>>(&w).map(|m| dump::dump(&m["a"])))), nt);
+    out.case("dump", &[&h, "field of a struct (copying)"], &g(guarded(|| scratch(&w, |b| sonic_rs::from_slice::<crate::entry::Embedded>(b)).map(|e| dump::dump(&e.a)))), nt);
+    out.case("dump", &[&h, "value of HashMap<String,Value>"], &g(guarded(|| scratch(&w, |b| sonic_rs::from_slice::<HashMap<String, Value>>(b)).map(|m| dump::dump(&m["a"])))), nt);
     if mutated {
         // the remaining drivers read the first value of their input: nothing is required of what follows
         return;
@@ -45,32 +57,38 @@ pub fn dom_drivers(out: &mut Out, doc: &[u8], mutated: bool) {
     let mut w = b"true ".to_vec();
     w.extend_from_slice(doc);
     out.case("dump", &[&h, "second document of a stream"], &g(guarded(|| {
-        let mut st = sonic_rs::Deserializer::from_slice(&w).into_stream::<Value>();
-        let _ = st.next();
-        match st.next() {
-            Some(r) => r.map(|v| dump::dump(&v)),
-            None => Ok("end".into()),
-        }
+        scratch(&w, |b| {
+            let mut st = sonic_rs::Deserializer::from_slice(b).into_stream::<Value>();
+            let _ = st.next();
+            match st.next() {
+                Some(r) => r.map(Some),
+                None => Ok(None),
+            }
+        })
+        .map(|v| v.map(|v| dump::dump(&v)).unwrap_or("end".into()))
     })), nt);
     let b = bytes::Bytes::copy_from_slice(doc);
     out.case("dump", &[&h, "Deserializer::from_json(&Bytes)"], &g(guarded(|| sonic_rs::Deserializer::from_json(&b).deserialize::<Value>().map(|v| dump::dump(&v)))), nt);
     // configurations
-    out.case("dumpraw", &[&h, "use_rawnumber"], &g(guarded(|| sonic_rs::Deserializer::from_slice(doc).use_rawnumber().deserialize::<Value>().map(|v| dump::dump(&v)))), nt);
+    out.case("dumpraw", &[&h, "use_rawnumber"], &g(guarded(|| scratch(doc, |b| sonic_rs::Deserializer::from_slice(b).use_rawnumber().deserialize::<Value>()).map(|v| dump::dump(&v)))), nt);
     let mut w2 = b"[ 1,".to_vec();
     w2.extend_from_slice(doc);
     w2.push(b']');
-    out.case("dumpraw", &[&h, "use_rawnumber, element of Vec<Value> (copying)"], &g(guarded(|| sonic_rs::Deserializer::from_slice(&w2).use_rawnumber().deserialize::<Vec<Value>>().map(|v| dump::dump(&v[1])))), nt);
+    out.case("dumpraw", &[&h, "use_rawnumber, element of Vec<Value> (copying)"], &g(guarded(|| scratch(&w2, |b| sonic_rs::Deserializer::from_slice(b).use_rawnumber().deserialize::<Vec<Value>>()).map(|v| dump::dump(&v[1])))), nt);
     let mut w3 = b"null ".to_vec();
     w3.extend_from_slice(doc);
     out.case("dumpraw", &[&h, "use_rawnumber, second document of a stream"], &g(guarded(|| {
-        let mut st = sonic_rs::Deserializer::from_slice(&w3).use_rawnumber().into_stream::<Value>();
-        let _ = st.next();
-        match st.next() {
-            Some(r) => r.map(|v| dump::dump(&v)),
-            None => Ok("end".into()),
-        }
+        scratch(&w3, |b| {
+            let mut st = sonic_rs::Deserializer::from_slice(b).use_rawnumber().into_stream::<Value>();
+            let _ = st.next();
+            match st.next() {
+                Some(r) => r.map(Some),
+                None => Ok(None),
+            }
+        })
+        .map(|v| v.map(|v| dump::dump(&v)).unwrap_or("end".into()))
     })), nt);
-    out.case("dump", &[&h, "utf8_lossy on valid text"], &g(guarded(|| sonic_rs::Deserializer::from_slice(doc).utf8_lossy().deserialize::<Value>().map(|v| dump::dump(&v)))), nt);
+    out.case("dump", &[&h, "utf8_lossy on valid text"], &g(guarded(|| scratch(doc, |b| sonic_rs::Deserializer::from_slice(b).utf8_lossy().deserialize::<Value>()).map(|v| dump::dump(&v)))), nt);
     // a clone and a subtree clone denote the same tree
     out.case("dump", &[&h, "clone of the parsed value"], &g(guarded(|| sonic_rs::from_slice::<Value>(doc).map(|v| dump::dump(&v.clone())))), nt);
 }
